@@ -2,9 +2,39 @@
 // Spec vocabulary of the source contract.
 // ---------------------------------------------------------------------------------------------
 pub open spec fn utf8_bom() -> Seq<u8> { seq![0xEFu8, 0xBB, 0xBF] }
+//@if encoding
+/// feature `encoding`: the byte-order mark of the detected encoding (XML 1.0 F.1: UTF-16 BE/LE 2 bytes, UTF-8
+/// 3 bytes); nothing is removed when the encoding is guessed from the first characters or not at all (C08)
+pub open spec fn bom_len(s: Seq<u8>) -> nat {
+    match encdetect_::spec_detect(s) { Some((_, n)) => n as nat, None => 0 }
+}
+pub open spec fn strip_bom(s: Seq<u8>) -> Seq<u8> { s.subrange(bom_len(s) as int, s.len() as int) }
+/// the encoding the sniff reports for the piece it sees
+pub open spec fn sniffed(s: Seq<u8>) -> Option<u8> {
+    match encdetect_::spec_detect(s) { Some((e, _)) => Some(e), None => None }
+}
+/// a byte-order mark found in a first piece of the input is the byte-order mark of the input
+pub proof fn lemma_bom_prefix(p: Seq<u8>, s: Seq<u8>)
+    requires p.len() <= s.len(), p =~= s.subrange(0, p.len() as int)
+    ensures bom_len(p) <= p.len(), bom_len(p) == 0 || bom_len(p) == bom_len(s)
+{
+    use encdetect_::has_prefix;
+    assert forall|pat: Seq<u8>| pat.len() <= p.len() implies #[trigger] has_prefix(p, pat) == has_prefix(s, pat) by {
+        assert(p.subrange(0, pat.len() as int) =~= s.subrange(0, pat.len() as int));
+    }
+    if p.len() >= 2 {
+        assert(has_prefix(p, seq![0xFEu8, 0xFF]) == has_prefix(s, seq![0xFEu8, 0xFF]));
+        assert(has_prefix(p, seq![0xFFu8, 0xFE]) == has_prefix(s, seq![0xFFu8, 0xFE]));
+    }
+    if p.len() >= 3 {
+        assert(has_prefix(p, seq![0xEFu8, 0xBB, 0xBF]) == has_prefix(s, seq![0xEFu8, 0xBB, 0xBF]));
+    }
+}
+//@else
 pub open spec fn strip_bom(s: Seq<u8>) -> Seq<u8> {
     if sw(s, utf8_bom()) { s.subrange(3, s.len() as int) } else { s }
 }
+//@endif
 /// `i` is the index of the first '<' of `s`
 pub open spec fn first_lt(s: Seq<u8>, i: int) -> bool {
     0 <= i < s.len() && s[i] == 0x3c && forall|j: int| 0 <= j < i ==> #[trigger] s[j] != 0x3c
